@@ -108,6 +108,8 @@ def units(tier, seed):
           [0.35, 0.65], [0.15, 0.3, 0.55]]
     for w in fr:
         us.append({"kind": "fractional", "weights": w, "sizes": list(range(2, 14)) + [37, 50]})
+    for eps in (False, True):
+        us.append({"kind": "lexicase", "epsilon": eps})
     for init in ("standard", "generic", "full", "grow", "pigrow", "ramped", "halfandhalf"):
         us.append({"kind": "init", "init": init})
     for n_inject in range(0, 6):
@@ -197,6 +199,47 @@ def run_fractional(unit) -> UnitResult:
                                               f"step {term} on {n} individuals asked for {k}, yielded {got}"))
     r.states = len(unit["sizes"])
     r.samples.append({"weights": w, "sizes": unit["sizes"][:4]})
+    return r
+
+
+def run_lexicase(unit) -> UnitResult:
+    from geneticengine.algorithms.gp.operators.selection import LexicaseSelection
+    from geneticengine.problems import MultiObjectiveProblem
+
+    r = UnitResult()
+    rep = StubRepresentation(2)
+    table = [[0.0, 2.0], [2.0, 0.0], [1.0, 1.0]]
+    for n in (1, 2, 3, 4, 5):
+        for k in range(1, n + 1):
+            for form in ("list", "iterator"):
+                for term in ("Lx", "seq(Lx,M)", "seq(T,Lx)"):
+                    def run(src, n=n, k=k, form=form, term=term):
+                        problem = MultiObjectiveProblem([False, True], lambda p: table[p.v % 3])
+                        ev = SequentialEvaluator()
+                        inds = [Individual(rep._new(i % 3), rep) for i in range(n)]
+                        pop = inds if form == "list" else iter(inds)
+                        lx = LexicaseSelection(epsilon=unit["epsilon"])
+                        step = {"Lx": lx, "seq(Lx,M)": SequenceStep(lx, GenericMutationStep(1)),
+                                "seq(T,Lx)": SequenceStep(TournamentSelection(2, with_replacement=True), lx)}[term]
+                        if term == "seq(T,Lx)":
+                            ev.evaluate(problem, inds)
+                        return len(list(step.apply(problem, ev, rep, src, pop, k, 1)))
+
+                    st = ExploreStats()
+                    for ex in explore(run, max_dev=1, max_execs=40, horizon=2000, stats=st):
+                        r.executions += 1
+                        r.nontrivial += 1
+                        w = {"unit": unit, "n": n, "k": k, "form": form, "term": term, "choices": list(ex.choices)}
+                        f = {"combinators": ["lexicase"], "form": form}
+                        if ex.exc is not None:
+                            r.add_violation(Violation(PROP, "GeneticStep.apply", "raised", dict(f, exc=type(ex.exc).__name__), w,
+                                                      f"{term} (epsilon={unit['epsilon']}) on {n} individuals ({form}), k={k}: {exc_brief(ex.exc)}"))
+                        elif ex.result != k:
+                            r.add_violation(Violation(PROP, "GeneticStep.apply", "wrong-size", dict(f, sign="over" if ex.result > k else "under"), w,
+                                                      f"{term} (epsilon={unit['epsilon']}) on {n} individuals ({form}) asked for {k}, yielded {ex.result}"))
+                    r.count("step_cases")
+    r.states = 15
+    r.samples.append({"lexicase_epsilon": unit["epsilon"]})
     return r
 
 
@@ -334,7 +377,7 @@ def run_gp(unit) -> UnitResult:
 
 
 def run_unit(unit) -> UnitResult:
-    return {"steps": run_steps, "init": run_init, "gp": run_gp, "fractional": run_fractional}[unit["kind"]](unit)
+    return {"steps": run_steps, "init": run_init, "gp": run_gp, "fractional": run_fractional, "lexicase": run_lexicase}[unit["kind"]](unit)
 
 
 def finalize(cr):
